@@ -75,6 +75,7 @@ type schedOut struct {
 	DevOrder    []int              `json:"dev_order,omitempty"`
 	Grants      []grant            `json:"grants,omitempty"`
 	NGrants     int                `json:"n_grants"`
+	Foreign     int64              `json:"foreign_hook_calls,omitempty"`
 }
 
 type c12Engine struct {
@@ -83,6 +84,9 @@ type c12Engine struct {
 	solo  *Solo
 	sites map[int]instr.Site
 	mod   string // module path of the code under test
+	// the tree starts goroutines of its own (or uses channels/timers): those run unscheduled,
+	// so runs are not fully controlled; replays are retried and the audit cannot be demanded
+	unmodelled bool
 }
 
 type schedVerdict struct {
@@ -297,14 +301,20 @@ func (g *c12Engine) Reproduce(pl interface{}) (*Violation, error) {
 	if err != nil {
 		return nil, err
 	}
-	_, v, err := g.runPlan(sp)
-	if err != nil {
-		return nil, err
+	tries := 1
+	if g.unmodelled {
+		tries = 12
 	}
-	if v == nil || v.Class == "" {
-		return nil, nil
+	for i := 0; i < tries; i++ {
+		_, v, err := g.runPlan(sp)
+		if err != nil {
+			return nil, err
+		}
+		if v != nil && v.Class != "" {
+			return g.violation(sp, v), nil
+		}
 	}
-	return g.violation(sp, v), nil
+	return nil, nil
 }
 
 // explicitOf re-runs a policy plan with every decision written through and
@@ -450,7 +460,7 @@ func buildC12(e *Env) (*c12Engine, *instr.Report, error) {
 		}
 		e.Logf("C12: note: the repository's own tests fail on this tree (instrumented and plain alike)")
 	}
-	g := &c12Engine{e: e, bin: bin, solo: NewSolo(e, src), sites: map[int]instr.Site{}, mod: rep.Module}
+	g := &c12Engine{e: e, bin: bin, solo: NewSolo(e, src), sites: map[int]instr.Site{}, mod: rep.Module, unmodelled: len(rep.Unmodelled) > 0}
 	for _, s := range rep.Sites {
 		g.sites[s.ID] = s
 	}
@@ -691,6 +701,9 @@ func CheckC12(e *Env) (int, error) {
 				tot.PreemptInBuild += st.PreemptInBuild
 				tot.OtherStepsInBuild += st.OtherStepsInBuild
 				tot.LockAcquires += st.LockAcquires
+				if out.Foreign > 0 {
+					probes["runs_with_unscheduled_goroutines_of_the_library"]++
+				}
 				digests[out.Digest] = true
 				od.Add(i, strDigest(out.Digest))
 				nt := (st.OnceMultiEnter >= 1 && (st.PreemptInBuild >= 1 || st.BlockedOnOnce >= 1)) || st.BlockedOnLock >= 1
@@ -815,9 +828,13 @@ func CheckC12(e *Env) (int, error) {
 	}
 	e.Logf("C12: %d runs, %d non-trivial (%d distinct), %d raw violations, inconclusive %v, audit %d/%d pairs ok", runs, nontrivial, len(ntDigests), len(viols), inconclusive, auditPairs-auditMismatch+explicitPairs-explicitMismatch, auditPairs+explicitPairs)
 	if auditMismatch+explicitMismatch > 0 {
-		fmt.Printf("AUDIT-FAILED C12: %s\n", auditDetail)
-		if code == 0 {
-			code = 2
+		if g.unmodelled {
+			fmt.Printf("AUDIT-NOT-APPLICABLE C12: this tree has concurrency of its own that the simulator does not schedule (%v); %d of %d audited runs differed, which is expected there. Race reports and divergences remain valid observations; schedules are only partly controlled.\n", rep.Unmodelled, auditMismatch+explicitMismatch, auditPairs+explicitPairs)
+		} else {
+			fmt.Printf("AUDIT-FAILED C12: %s\n", auditDetail)
+			if code == 0 {
+				code = 2
+			}
 		}
 	}
 	incl := 0
